@@ -38,7 +38,7 @@ PROPS = {
                    "(counted) when a 1e-9 relative change of the scaling factor would change the answer; known finding KF-1 is recognised by "
                    "its exact signature only",
         quick=dict(cases=2500, size=200, workers=16, timeout=1800),
-        thorough=dict(cases=60000, size=200, workers=16, timeout=14400),
+        thorough=dict(cases=30000, size=200, workers=16, timeout=14400),
         rule="tape -> array spec, tag request, mode, entry point, optional feature. Non-trivial: the expected region is a proper sub-block in "
              "a specified dimension with a boundary on or within one ulp of a coordinate, or a dimension is unspecified, or an error is "
              "expected. Distinct = hash of the decoded case.",
@@ -75,7 +75,7 @@ PROPS = {
         level_note="start == end accepts either the single element at or after start or an exception (the statement leaves it open); units "
                    "are only given for dimensions whose start and end are both given; scaled requests as in C05",
         quick=dict(cases=2500, size=200, workers=16, timeout=1800),
-        thorough=dict(cases=60000, size=200, workers=16, timeout=14400),
+        thorough=dict(cases=40000, size=200, workers=16, timeout=14400),
         rule="tape -> {slice case | view case}. Non-trivial: a slice with fewer start or end entries than dimensions, or with a bound on / "
              "one ulp beside a coordinate, or with start > end; a view case with a request crossing the window edge in exactly one "
              "dimension or a read after a write. Distinct = hash of the decoded case.",
@@ -308,8 +308,8 @@ PROPS = {
                    "approximately reproducible from the seed, the saved input (converted to a tape and replayed 3x) is the reproducible unit; "
                    "sizes are small or absurd so that memory pressure is never the signal; -DNDEBUG as shipped",
         quick=dict(cases=120, size=500, workers=16, timeout=2400),
-        thorough=dict(cases=6000, size=500, workers=16, timeout=14400),
-        fuzz=dict(bin="fz_api", max_len=4096, quick=dict(procs=8, runs=2000), thorough=dict(procs=16, runs=150000)),
+        thorough=dict(cases=2500, size=500, workers=16, timeout=14400),
+        fuzz=dict(bin="fz_api", max_len=4096, quick=dict(procs=8, runs=2000), thorough=dict(procs=16, runs=20000)),
         rule="tape -> program. Non-trivial (counted on the rapidcheck side, libFuzzer executions are counted in evaluations and by its "
              "coverage counters): at least one out-of-contract data / retrieval / frame call reached the backend and at least one call "
              "threw. Distinct = hash of the decoded program.",
